@@ -6,8 +6,10 @@ id=$1; prop=$2; wt=$3; n=$4; tier=${5:-quick}
 out=/verif/seeded/$id; mkdir -p $out
 d=/dev/shm/seed-$$-$RANDOM; mkdir -p $d
 rsync -a --exclude .git /repo/ $d/repo/
+if [ -f "$wt/change_$n.patch" ]; then
 cp $wt/change_$n.patch $out/patch.diff
 sed "s#'$wt/src'#__import__('os').environ.get('SCINUM_SRC','/repo/src')#; s#\"$wt/src\"#__import__('os').environ.get('SCINUM_SRC','/repo/src')#" $wt/demo_$n.py > $out/demo.py
+fi   # else: re-evaluate the stored seed (patch.diff, demo.py already under seeded/<id>)
 SCINUM_SRC=$d/repo/src /venv/bin/python -W ignore $out/demo.py >/dev/null 2>&1; demo_clean=$?
 if ! (cd $d/repo && patch -p1 -s < $out/patch.diff); then echo "SEED $id PATCH-FAILED"; rm -rf $d; exit 2; fi
 SCINUM_SRC=$d/repo/src /venv/bin/python -W ignore $out/demo.py > $d/demo.out 2>&1; demo_mut=$?
